@@ -372,3 +372,37 @@ Definition no_empty_branch_item (i : item) : bool :=
       && (match els with Some (b, _) => negb (is_nil b) | None => true end)
   end.
 Definition no_empty_branch (is : list item) : bool := forallb no_empty_branch_item is.
+
+(* ================================================================ legacy Flavor= groups *)
+
+Definition plain_blay : bracelay := mkBracelay [] [] [c_sp] [c_sp] [c_sp] [c_sp] [].
+Definition plain_alay : alay := mkAlay (lit "FLAVOR") 1 1 QNone.
+Definition flavor_atom (f : str) : cond := Atom plain_alay CFlavor OEq f.
+
+Fixpoint flavor_disj_from (acc : cond) (fs : list str) : cond :=
+  match fs with
+  | [] => acc
+  | f :: r => flavor_disj_from (Bin 1 1 BOr acc (flavor_atom f)) r
+  end.
+(* FLAVOR == f1 || FLAVOR == f2 || ... *)
+Definition flavor_disj (fs : list str) : cond :=
+  match fs with
+  | [] => flavor_atom []
+  | f :: r => flavor_disj_from (flavor_atom f) r
+  end.
+
+(* a non-empty list of flavor names, none of them the wildcard of the old form *)
+Definition wf_flavors (fs : list str) : bool :=
+  negb (is_nil fs) && forallb wf_lit fs
+  && forallb (fun f => negb (str_eqb (lower_str f) (lit "any"))) fs.
+
+Definition flavor_line (f : str) : str := lit "Flavor=" ++ f.
+Definition as_text (lines : list str) : str := flat_map (fun l => l ++ [c_nl]) lines.
+
+(* one or more Flavor= lines, then the body (up to the next Flavor= line or the end) *)
+Definition print_new_group (fs : list str) (body : list cmd) : str :=
+  as_text (map flavor_line fs ++ flat_map cmd_lines body).
+
+(* the older form *)
+Definition print_old_group (fs : list str) (body : list cmd) : str :=
+  as_text ([lit "Group:"] ++ map flavor_line fs ++ [lit "Common:"] ++ flat_map cmd_lines body ++ [lit "End:"]).
